@@ -105,7 +105,11 @@ def clause2_pair(ctx, P):
             return t is not None and Q.is_call_to(t, "state_matches") and t[2] == (e_t, f_t) and pol
         ctx.ob("C01.2 R-GATE", pf, Q.ordinal_site(pf, c, P) + ":matches", Q.must_pass(P, pf, c.block, matches),
                "%s reachable without state_matches(e, f) != 0 on the same pair" % P.srcname_of(c.callee))
-    ctx.floor("C01.2 R-GATE", 2)
+        from .c08 import _has_access_gate
+        vis = _has_access_gate(lambda t: t == e_t, lambda t: Q.is_field_load(t, "struct.fetch", "peer") == f_t, "fetch_groups")
+        ctx.ob("C01.2 R-GATE", pf, Q.ordinal_site(pf, c, P) + ":visible", Q.must_pass(P, pf, c.block, vis),
+               "%s reachable for an element that is not visible to the fetching peer (no has_access on the pair)" % P.srcname_of(c.callee))
+    ctx.floor("C01.2 R-GATE", 4)
 
 
 def clause3_who(ctx, P):
